@@ -336,10 +336,14 @@ def h_from_sample(shape, res, flipx, flipy):
     prove("same_shape", g2.tile_shape == g.tile_shape)
 
 
-def h_web_tiles(z):
+def h_web_tiles(z, npix=256, before=()):
+    """before: (zoom, npix) requests made earlier in the same process -- the grid asked for may not
+    depend on them"""
     import odc.geo.gridspec as gs
 
-    g = gs.GridSpec.web_tiles(z)
+    for z0, np0 in before:
+        gs.GridSpec.web_tiles(z0, np0)
+    g = gs.GridSpec.web_tiles(z) if npix == 256 else gs.GridSpec.web_tiles(z, npix=npix)
     n = 2**z
     x, y = Int("x", 0, n - 1), Int("y", 0, n - 1)
     gb, xs, ys = tile_extent(g, x, y)
@@ -349,14 +353,15 @@ def h_web_tiles(z):
     # a tile edge is one multiplication and one addition away from exact constants: a few units in
     # the last place of 2e7 m, whatever the zoom -- not an error that grows with the tile index
     # ... and in any case far below the library's own tolerance for "the same pixel grid" (1/20 pixel)
-    tol = tsz / 256 / 20 + F(1e-8)
+    tol = tsz / npix / 20 + F(1e-8)
     x0, x1 = xs  # rx > 0
     y1, y0 = ys  # ry < 0: pixel (0,0) at the top
     prove("left", abs(x0 - (-piR + x * tsz)) <= tol)
     prove("right", abs(x1 - (-piR + (x + 1) * tsz)) <= tol)
     prove("top", abs(y1 - (piR - y * tsz)) <= tol)
     prove("bottom", abs(y0 - (piR - (y + 1) * tsz)) <= tol)
-    prove("npix", And(gb.shape.x == 256, gb.shape.y == 256))
+    prove("npix", And(gb.shape.x == npix, gb.shape.y == npix))
+    prove("pixel_size_is_tile_size_over_npix", And(abs(ex(gb.affine.a) - tsz / npix) <= tol / npix, abs(ex(gb.affine.e) + tsz / npix) <= tol / npix))
     prove("crs_3857", g.crs.epsg == 3857)
     # the whole map: tile (n-1, n-1) ends at the bottom right corner, 2^z tiles per side
     if z <= 4:
@@ -411,8 +416,9 @@ OBLIGATIONS = [
        bounds="1-2 rectangles at most one tile wide near the origin (<= a few tiles by case split)", stubs=("union-of-rectangles geometry answering to_crs / boundingbox / disjoint exactly (GEOS and PROJ are outside the claim)", "vertex-list tile footprints"), setup=setup, timeout_ms=20000),
     Ob("A6_from_sample_tile", h_from_sample, tiered(CFG_Q, CFG_T), descr="a grid rebuilt from any one tile (footprint, index, shape, flips) has the same footprint for every index",
        functions=("odc.geo.gridspec.GridSpec.from_sample_tile", "odc.geo.math.Bin1D.from_sample_bin"), stubs=("object exposing .crs/.boundingbox in place of the shapely polygon",), **B),
-    Ob("A7_web_tiles", h_web_tiles, tiered([dict(z=z) for z in (0, 1, 2, 7, 14, 22, 26, 30)], [dict(z=z) for z in range(0, 31)]),
-       descr="web_tiles(z): tile (x,y) spans the standard slippy-map extent, 2^z tiles per side, 256 px, EPSG:3857",
+    Ob("A7_web_tiles", h_web_tiles, tiered([dict(z=z) for z in (0, 1, 2, 7, 14, 22, 26, 30)] + [dict(z=3, npix=512, before=[[3, 256]]), dict(z=5, npix=256, before=[[5, 100], [4, 256]])],
+                                           [dict(z=z) for z in range(0, 31)] + [dict(z=z, npix=n_, before=[[z, m_]]) for z in (0, 3, 12) for n_, m_ in ((512, 256), (256, 512), (100, 256))]),
+       descr="web_tiles(z, npix): tile (x,y) spans the standard slippy-map extent, 2^z tiles per side, npix pixels of tile size / npix, EPSG:3857 -- whatever grids were requested before in the same process",
        functions=("odc.geo.gridspec.GridSpec.web_tiles", "odc.geo.gridspec.GridSpec.from_sample_tile"), bounds="z from grid (thorough: 0..22); tile index symbolic in [0, 2^z)", setup=setup),
     Ob("A8_eq", h_eq, fixed(CFG_Q[0], CFG_Q[2]), descr="GridSpec equality: reflexive on rebuilt copy, differs on shifted origin", functions=("odc.geo.gridspec.GridSpec.__eq__",), setup=setup),
 ]
